@@ -38,7 +38,7 @@ CORPORA = {
 # Properties: which corpora decide them and which oracle conjuncts (tags) are theirs.
 # ---------------------------------------------------------------------------
 PROPS = {
-    "C01": dict(corpora=["stream_matrix", "stream_faults"], prefix="C01."),
+    "C01": dict(corpora=["stream_matrix", "stream_faults", "restbind"], prefix="C01."),
     "C02": dict(corpora=["stream_matrix", "stream_headers"], prefix="C02."),
     "C03": dict(corpora=["stream_matrix", "stream_errors", "stream_faults", "stream_hostile"], prefix="C03."),
     "C04": dict(corpora=["stream_errors"], prefix="C04."),
